@@ -573,6 +573,10 @@ trait WriterE: Endianness {
     ) -> (Option<WW>, Vec<R<usize>>)
     where
         u64: CastableInto<WW::Word>;
+    /// CountBitWriter with PRINT = true
+    fn run_print<WW: WordWrite>(backend: WW, end: WEnd, f: &mut dyn FnMut(&mut dyn DynW, Option<&RecHandle>)) -> Option<WW>
+    where
+        u64: CastableInto<WW::Word>;
 }
 
 macro_rules! impl_writer_e {
@@ -604,6 +608,10 @@ macro_rules! impl_writer_e {
                         let mut bw = std::mem::ManuallyDrop::into_inner(bw);
                         match end {
                             WEnd::IntoInner => (bw.into_inner().ok(), end_flush),
+                            WEnd::UnwrapThenWrite => {
+                                end_flush.push(BitWrite::write_bits(&mut bw, 0b1011, 4).map_err(es));
+                                (bw.into_inner().ok(), end_flush)
+                            }
                             WEnd::Drop => {
                                 drop(bw);
                                 (None, end_flush)
@@ -627,9 +635,13 @@ macro_rules! impl_writer_e {
                             let mut w = Wr::<$E, _>::new(&mut *cw, caps);
                             f(&mut w, rec);
                         }
-                        let bw = std::mem::ManuallyDrop::into_inner(cw).into_inner();
+                        let mut bw = std::mem::ManuallyDrop::into_inner(cw).into_inner();
+                        if end == WEnd::UnwrapThenWrite {
+                            end_flush.push(BitWrite::write_bits(&mut bw, 0b1011, 4).map_err(es));
+                        }
                         (bw.into_inner().ok(), end_flush)
                     }
+                    WWrap::CountPrint => unreachable!("CountPrint is served by run_print"),
                     WWrap::Dbg => {
                         let mut dw = std::mem::ManuallyDrop::new(DbgBitWriter::<$E, _>::new(bw));
                         {
@@ -641,6 +653,23 @@ macro_rules! impl_writer_e {
                         (None, end_flush)
                     }
                 }
+            }
+            fn run_print<WW: WordWrite>(backend: WW, end: WEnd, f: &mut dyn FnMut(&mut dyn DynW, Option<&RecHandle>)) -> Option<WW>
+            where
+                u64: CastableInto<WW::Word>,
+            {
+                let bw = BufBitWriter::<$E, WW>::new(backend);
+                let mut cw = std::mem::ManuallyDrop::new(CountBitWriter::<$E, _, true>::new(bw));
+                {
+                    let caps = WCaps { io_write: None, io_flush: None, counter: Some(|c: &CountBitWriter<$E, BufBitWriter<$E, WW>, true>| c.bits_written) };
+                    let mut w = Wr::<$E, _>::new(&mut *cw, caps);
+                    f(&mut w, None);
+                }
+                let mut bw = std::mem::ManuallyDrop::into_inner(cw).into_inner();
+                if end == WEnd::UnwrapThenWrite {
+                    let _ = BitWrite::write_bits(&mut bw, 0b1011, 4);
+                }
+                bw.into_inner().ok()
             }
         }
     };
@@ -658,6 +687,11 @@ where
     u64: CastableInto<W>,
     RecWriter<W>: WordWrite<Word = W>,
 {
+    if cfg.wrap == WWrap::CountPrint {
+        let b = E::run_print(MemWordWriterVec::<W, Vec<W>>::new(Vec::new()), end, f);
+        let bytes = b.map(|b| bytes_of::<W>(&b.into_inner())).unwrap_or_default();
+        return WRun { bytes, end_flush: vec![], rec: None };
+    }
     match cfg.backend {
         WBackend::VecOwned => {
             // into_inner hands the Vec back; for Drop-style endings the Vec is lost with an owned
@@ -729,6 +763,16 @@ trait ReaderE: Endianness {
         <WR::Word as common_traits::DoubleType>::DoubleType: CastableInto<u64> + std::fmt::Display;
     /// unbuffered reader over a u64 backend
     fn unbuf<WR>(wr: WR, nwords: usize, pre: usize, wrap: RWrap, clonable: bool, f: &mut dyn FnMut(&mut dyn DynR))
+    where
+        WR: WordRead<Word = u64> + WordSeek<Error = <WR as WordRead>::Error> + MaybeClone;
+    /// CountBitReader with PRINT = true over a buffered reader
+    fn buf_print<WR>(wr: WR, nwords: usize, pre: usize, f: &mut dyn FnMut(&mut dyn DynR))
+    where
+        WR: WordRead + WordSeek<Error = <WR as WordRead>::Error> + MaybeClone,
+        WR::Word: common_traits::DoubleType + common_traits::UpcastableInto<u64>,
+        <WR::Word as common_traits::DoubleType>::DoubleType: CastableInto<u64> + std::fmt::Display;
+    /// CountBitReader with PRINT = true over the unbuffered reader
+    fn unbuf_print<WR>(wr: WR, nwords: usize, pre: usize, f: &mut dyn FnMut(&mut dyn DynR))
     where
         WR: WordRead<Word = u64> + WordSeek<Error = <WR as WordRead>::Error> + MaybeClone;
 }
@@ -810,6 +854,7 @@ macro_rules! impl_reader_e {
                         };
                         f(&mut Rd::<$E, _>::new(cr, caps));
                     }
+                    RWrap::CountPrint => unreachable!("CountPrint is served by buf_print"),
                     RWrap::Dbg => {
                         // position observed through a counting layer *under* the tracing wrapper
                         let dr = DbgBitReader::<$E, _>::new(br);
@@ -855,12 +900,51 @@ macro_rules! impl_reader_e {
                         };
                         f(&mut Rd::<$E, _>::new(cr, caps));
                     }
+                    RWrap::CountPrint => unreachable!("CountPrint is served by unbuf_print"),
                     RWrap::Dbg => {
                         let dr = DbgBitReader::<$E, _>::new(br);
                         let caps = RCaps::<DbgBitReader<$E, T<WR>>> { pos: None, set_pos: None, io_read: None, clone: if clonable { Some(cap_clone) } else { None }, counter: None };
                         f(&mut Rd::<$E, _>::new(dr, caps));
                     }
                 }
+            }
+            fn buf_print<WR>(wr: WR, nwords: usize, pre: usize, f: &mut dyn FnMut(&mut dyn DynR))
+            where
+                WR: WordRead + WordSeek<Error = <WR as WordRead>::Error> + MaybeClone,
+                WR::Word: common_traits::DoubleType + common_traits::UpcastableInto<u64>,
+                <WR::Word as common_traits::DoubleType>::DoubleType: CastableInto<u64> + std::fmt::Display,
+            {
+                let mut br = BufBitReader::<$E, Cl<WR>>::new(Cl::new(wr, nwords));
+                if pre > 0 {
+                    br.skip_bits(pre).expect("pre-wrap skip within the data");
+                }
+                let cr = CountBitReader::<$E, _, true>::new(br);
+                let caps = RCaps::<CountBitReader<$E, BufBitReader<$E, Cl<WR>>, true>> {
+                    pos: Some(cap_pos),
+                    set_pos: Some(cap_set_pos),
+                    io_read: None,
+                    clone: Some(cap_clone),
+                    counter: Some(|c| c.bits_read),
+                };
+                f(&mut Rd::<$E, _>::new(cr, caps));
+            }
+            fn unbuf_print<WR>(wr: WR, nwords: usize, pre: usize, f: &mut dyn FnMut(&mut dyn DynR))
+            where
+                WR: WordRead<Word = u64> + WordSeek<Error = <WR as WordRead>::Error> + MaybeClone,
+            {
+                let mut br = BitReader::<$E, Cl<WR>>::new(Cl::new(wr, nwords));
+                if pre > 0 {
+                    br.skip_bits(pre).expect("pre-wrap skip within the data");
+                }
+                let cr = CountBitReader::<$E, _, true>::new(br);
+                let caps = RCaps::<CountBitReader<$E, BitReader<$E, Cl<WR>>, true>> {
+                    pos: Some(cap_pos),
+                    set_pos: Some(cap_set_pos),
+                    io_read: None,
+                    clone: Some(cap_clone),
+                    counter: Some(|c| c.bits_read),
+                };
+                f(&mut Rd::<$E, _>::new(cr, caps));
             }
         }
     };
@@ -930,6 +1014,9 @@ where
 {
     let words: Vec<W> = words_of::<W>(bytes);
     let nwords = words.len();
+    if cfg.wrap == RWrap::CountPrint {
+        return E::buf_print(MemWordReader::<W, Vec<W>>::new(words), nwords, cfg.pre as usize, f);
+    }
     match cfg.backend {
         RBackend::InfBorrowed => E::buf(MemWordReader::<W, &[W]>::new(&words[..]), nwords, cfg.pre as usize, cfg.wrap, true, f),
         RBackend::InfOwned => E::buf(MemWordReader::<W, Vec<W>>::new(words), nwords, cfg.pre as usize, cfg.wrap, true, f),
@@ -956,6 +1043,9 @@ fn with_unbuf_reader<E: ReaderE>(cfg: RCfg, bytes: &[u8], f: &mut dyn FnMut(&mut
     type W = u64;
     let words: Vec<W> = words_of::<W>(bytes);
     let nwords = words.len();
+    if cfg.wrap == RWrap::CountPrint {
+        return E::unbuf_print(MemWordReader::<W, Vec<W>>::new(words), nwords, cfg.pre as usize, f);
+    }
     match cfg.backend {
         RBackend::InfBorrowed => E::unbuf(MemWordReader::<W, &[W]>::new(&words[..]), nwords, cfg.pre as usize, cfg.wrap, true, f),
         RBackend::InfOwned => E::unbuf(MemWordReader::<W, Vec<W>>::new(words), nwords, cfg.pre as usize, cfg.wrap, true, f),
